@@ -313,3 +313,7 @@ package posix
 // same name, or the parent of other keys)
 //@   at-call posix.tmpfile.link {C08} [the-target-is-not-a-directory] requires called("os.Stat") && arg("os.Stat", 0) == objname \
 //@        && (result("os.Stat", 1) != nil || !result("os.Stat", 0).IsDir())
+
+// ---- C08: a refused upload leaves no staging file behind (a named temporary file is removed when the upload ends) ----
+//@ func (*tmpfile) cleanup
+//@   at-return {C08} [a-named-temporary-file-is-removed] when !tmp.isOTmp :: ensures called("os.Remove") && called("os.File.Name") && arg("os.Remove", 0) == result("os.File.Name", 0)
